@@ -41,6 +41,7 @@ class Verifier(Stmts):
         self.key_projection = {}
         self.ctor_param_fields = {}
         self.vacuity = []
+        self._sym_cache = {}
         self.spec_globals = {'ZERO32': bytes(32)}
         for ci in registry.classes.values():
             self.spec_globals[ci.name] = ci.pyclass
@@ -221,6 +222,8 @@ class Verifier(Stmts):
             n = "%s:on_raise[%d]" % (qualname, k)
             if n not in have:
                 self.oblige(empty, z3.BoolVal(True), n, text + " (no raising path)")
+        if qualname + ":frame" not in have:
+            self.oblige(empty, z3.BoolVal(True), qualname + ":frame", "no write to a value object on any path")
         self.current = None
         return info
 
@@ -339,6 +342,78 @@ class Verifier(Stmts):
         f = self.uf('pred_' + name, *([t.sort() for t in ts] + [z3.BoolSort()]))
         return f(*ts)
 
+    def contract_axiom(self, qualname, st=None):
+        """forall params. requires and 'returns normally'(params) ==> ensures(params): what a *verified* contract with a
+        normal-return predicate lets a lemma use (sound only because the function's own obligations are discharged in
+        the same check, and the function is deterministic)"""
+        con = self.contracts[qualname]
+        func = self.resolve(qualname)
+        node, _ = self.func_ast(func)
+        names = [a.arg for a in node.args.args]
+        sub = State()
+        sub.stack.append(Frame({}, None, func.__globals__, qualname + ':axiom'))
+        consts = []
+        vals = {}
+        for n in names:
+            ty = self.param_type(con, func, node, n)
+            v = self.fresh('ax_' + n, ty)
+            vals[n] = v
+            consts.append(v.t)
+        sub.frame.vars.update(vals)
+        env = self.with_lets(con, sub, {})
+        for lname, _t in con.lets:
+            sub.frame.vars[lname] = env[lname]
+        hyps = [self.validity(vals[n], sub) for n in names]
+        hyps += [self.spec_bool(t, sub, env) for t in con.requires_]
+        hyps.append(self.predicate_term(con, vals, sub))
+        concl = [self.spec_bool(t, sub, env) for t in con.ensures_]
+        pred = self.predicate_term(con, vals, sub)
+        hyp = self.b(self._and(hyps + list(sub.pc)))
+        # one axiom per clause, so that a clause that is itself universally quantified can be flattened and instantiated
+        return [z3.ForAll(consts, z3.Implies(hyp, self.b(cl)), patterns=[pred]) for cl in concl]
+
+    def quick_prove(self, hyps, goal, timeout_ms=2000):
+        r, _ = self._try(hyps, goal, 500)
+        if r == z3.unsat:
+            return True
+        try:
+            from .inst import instantiate
+            gh, core, _n, _left = instantiate(hyps, goal, rounds=1)
+            r2, _ = self._try(gh, core, timeout_ms)
+            return r2 == z3.unsat
+        except z3.Z3Exception:
+            return False
+
+    def use_contract(self_, st, qualname, **args):
+        self = self_
+        """lemma step: instantiate a verified contract at given arguments.  Adds  pred(args) ==> ensures(args)  to the
+        state (as separate top-level facts when pred(args) already follows from the state).  Sound because the function's
+        own obligations are part of the same check and the function is deterministic (normal return is a predicate of
+        the arguments)."""
+        con = self.contracts[qualname]
+        func = self.resolve(qualname)
+        node, _ = self.func_ast(func)
+        names = [a.arg for a in node.args.args]
+        vals = {n: args[n] for n in names}
+        sub = st
+        sub.stack.append(Frame(dict(vals), None, func.__globals__, qualname + ':use'))
+        try:
+            env = self.with_lets(con, sub, {})
+            for lname, _t in con.lets:
+                sub.frame.vars[lname] = env[lname]
+            pre = [self.spec_bool(t, sub, env) for t in con.requires_]
+            pred = self.predicate_term(con, vals, sub) if con.predicate_ else z3.BoolVal(True)
+            facts = [self.b(self.spec_bool(t, sub, env)) for t in con.ensures_]
+        finally:
+            sub.stack.pop()
+        guard = self.b(self._and(pre + [pred]))
+        if self.quick_prove(list(self.axioms) + list(self.func_axioms) + list(st.pc), guard):
+            for f in facts:
+                st.assume(f)
+            return True
+        st.assume(z3.Implies(guard, z3.And(*facts)) if facts else z3.BoolVal(True))
+        return False
+
     def raise_classes(self, con):
         if con.raise_cases is not None:
             return con.raise_cases
@@ -397,49 +472,121 @@ class Verifier(Stmts):
                 if progress:
                     progress(ob)
 
+    def uf_symbols(self, e):
+        """names of the uninterpreted functions (arity > 0) occurring in e, also under quantifiers"""
+        k = e.get_id()
+        c = self._sym_cache.get(k)
+        if c is not None:
+            return c[0]
+        out = set()
+        seen = set()
+        todo = [e]
+        while todo:
+            x = todo.pop()
+            i = x.get_id()
+            if i in seen:
+                continue
+            seen.add(i)
+            if z3.is_quantifier(x):
+                todo.append(x.body())
+            elif z3.is_app(x):
+                d = x.decl()
+                if d.kind() == z3.Z3_OP_UNINTERPRETED and d.arity() > 0:
+                    out.add(d.name())
+                todo.extend(x.children())
+        self._sym_cache[k] = (out, e)
+        return out
+
+    def relevance_levels(self, ob):
+        """hypothesis subsets tried before the full set (dropping hypotheses is sound; it only keeps z3's quantifier
+        instantiation and sequence reasoning from wandering).
+        A:  facts sharing an uninterpreted function with the goal + ground facts without any uninterpreted function
+        A+: one more round of sharing
+        G:  A+ plus every cheap ground fact (no quantifier, no sequence construction)"""
+        goal_syms = self.uf_symbols(ob.goal)
+        hyps = ob.hyps
+        info = [(h, self.hard_for_pruning(h), self.uf_symbols(h)) for h in hyps]
+        levels = []
+        syms = set(goal_syms)
+        for _round in range(2):
+            pick = [h for h, hard, hs in info if (hs & syms) or (not hard and not hs)]
+            levels.append(pick)
+            for h, hard, hs in info:
+                if hs & syms:
+                    syms = syms | hs
+        levels.append([h for h, hard, hs in info if (not hard) or (hs & syms)])
+        out = []
+        for lv in levels:
+            if len(lv) < len(hyps) and (not out or len(lv) != len(out[-1])):
+                out.append(lv)
+        return out
+
+    def _try(self, hyps, goal, timeout_ms, seed=None):
+        s = self._solver(timeout_ms)
+        if seed is not None:
+            s.set('random_seed', seed)
+        for h in hyps:
+            s.add(h)
+        s.add(z3.Not(goal))
+        return s.check(), s
+
     def discharge(self, ob, use_cvc5=True):
         t0 = time.time()
         if z3.is_true(ob.goal):
             ob.status, ob.backend = 'discharged', 'trivial'
             return ob
-        s = self._solver(self.timeout_ms)
-        for h in ob.hyps:
-            s.add(h)
-        s.add(z3.Not(ob.goal))
-        r = s.check()
-        ob.seconds = time.time() - t0
-        self.solver_seconds += ob.seconds
         self.solver_calls += 1
+        # 1. full hypothesis set, short budget (the common case: milliseconds)
+        r, s = self._try(ob.hyps, ob.goal, min(1500, self.timeout_ms))
         if r == z3.unsat:
             ob.status, ob.backend = 'discharged', 'z3'
-            return ob
-        if r == z3.sat:
-            ob.status, ob.backend = 'refuted', 'z3'
-            ob.model = s.model()
-            return ob
-        ob.detail = 'z3: unknown (%s)' % s.reason_unknown()
-        if use_cvc5:
-            r2 = self.run_cvc5(s)
-            ob.seconds = time.time() - t0
-            if r2 == 'unsat':
-                ob.status, ob.backend = 'discharged', 'cvc5'
-                return ob
-            ob.detail += '; cvc5: %s' % r2
-        # second z3 attempt with another seed / no MBQI preference
-        s2 = self._solver(self.timeout_ms)
-        s2.set('random_seed', self.seed + 17)
-        for h in ob.hyps:
-            s2.add(h)
-        s2.add(z3.Not(ob.goal))
-        r3 = s2.check()
+        elif r == z3.sat:
+            ob.status, ob.backend, ob.model = 'refuted', 'z3', s.model()
+        else:
+            # 2. deterministic instantiation on index terms (quantifier-free problem)
+            try:
+                from .inst import instantiate
+                ghyps, core, n_inst, leftover = instantiate(ob.hyps, ob.goal)
+                ri, _si = self._try(ghyps, core, min(6000, self.timeout_ms))
+                if ri == z3.unsat:
+                    ob.status, ob.backend = 'discharged', 'z3/instantiated(%d)' % n_inst
+                elif leftover:
+                    ri2, _ = self._try(ghyps + leftover, core, min(6000, self.timeout_ms))
+                    if ri2 == z3.unsat:
+                        ob.status, ob.backend = 'discharged', 'z3/instantiated+q(%d)' % n_inst
+            except z3.Z3Exception as e:
+                ob.detail += 'instantiation failed: %s; ' % e
+            # 3. relevance-filtered subsets
+            for k, lv in enumerate(self.relevance_levels(ob) if ob.status is None else []):
+                r2, _s2 = self._try(lv, ob.goal, min(4000, self.timeout_ms))
+                if r2 == z3.unsat:
+                    ob.status, ob.backend = 'discharged', 'z3/relevant%d' % k
+                    break
+            if ob.status is None:
+                # 3. full set, full budget; then cvc5; then another seed
+                r3, s3 = self._try(ob.hyps, ob.goal, self.timeout_ms)
+                if r3 == z3.unsat:
+                    ob.status, ob.backend = 'discharged', 'z3'
+                elif r3 == z3.sat:
+                    ob.status, ob.backend, ob.model = 'refuted', 'z3', s3.model()
+                else:
+                    ob.detail = 'z3: unknown (%s)' % s3.reason_unknown()
+                    if use_cvc5:
+                        r4 = self.run_cvc5(s3)
+                        if r4 == 'unsat':
+                            ob.status, ob.backend = 'discharged', 'cvc5'
+                        else:
+                            ob.detail += '; cvc5: %s' % r4
+                    if ob.status is None:
+                        r5, s5 = self._try(ob.hyps, ob.goal, self.timeout_ms, seed=self.seed + 17)
+                        if r5 == z3.unsat:
+                            ob.status, ob.backend = 'discharged', 'z3(seed2)'
+                        elif r5 == z3.sat:
+                            ob.status, ob.backend, ob.model = 'refuted', 'z3(seed2)', s5.model()
+                        else:
+                            ob.status = 'unknown'
         ob.seconds = time.time() - t0
-        if r3 == z3.unsat:
-            ob.status, ob.backend = 'discharged', 'z3(seed2)'
-            return ob
-        if r3 == z3.sat:
-            ob.status, ob.backend, ob.model = 'refuted', 'z3(seed2)', s2.model()
-            return ob
-        ob.status = 'unknown'
+        self.solver_seconds += ob.seconds
         return ob
 
     def run_cvc5(self, solver):
